@@ -306,6 +306,9 @@ fn levels_valid(levels: &[Level]) -> bool {
                     return false;
                 }
             }
+            // a condition on `c1` whose own branch redefines `c1` in the same scope is a paradox
+            // (the selected branch changes the condition), not a construct with a hand expansion
+            Level::If(Cond::C1Eq2, IfShape::ThenElseDefs | IfShape::InElseDefs) => return false,
             // a label directly in a loop body (`.if` and `.const` do not open a scope)
             Level::Braces { labelled: true } => {
                 let mut j = i;
